@@ -37,12 +37,13 @@ def cases(tier, rng):
         for t in itertools.product(sm, repeat=3):
             if tier == "thorough" or rng.random() < 0.25:
                 out.append(("(eval %s (%s) (ss))" % (name, " ".join(t)), "triple"))
-    # random lists of 1-4 numbers, literally or through chains
+    # random lists of 1-12 numbers, literally or through chains
     n = 3000 if tier == "quick" else 60000
     for _ in range(n):
-        k = rng.randint(1, 4)
+        k = rng.choice([1, 2, 3, 4, 1, 2, 3, 4, 5, 7, 9, 12])
         mode = rng.random()
-        if mode < 0.3:   args = [integer(rng.choice(INTS)) for _ in range(k)]
+        if mode < 0.08:  args = [integer(rng.randint(-2**62, 2**62) >> rng.choice([0, 8, 20, 31, 40])) for _ in range(k)]
+        elif mode < 0.3: args = [integer(rng.choice(INTS)) for _ in range(k)]
         elif mode < 0.5: args = [integer(rng.randint(-50, 50)) for _ in range(k)]
         elif mode < 0.7: args = [flt(rng.choice(FLOATS)) for _ in range(k)]
         elif mode < 0.8: args = [fbits(rng.getrandbits(64)) for _ in range(k)]
@@ -90,7 +91,7 @@ def cases(tier, rng):
 
 RULE = ("all ordered pairs of a 49-number universe (i64 extremes, 2^53+-1, sqrt(2^63) neighbours, +-0.0, "
         "fractions, subnormals, infinities, NaN) for the four functions; all singletons; triples over a small "
-        "universe; random lists of 1-4 numbers, literally and through variable chains; the same through the text parser "
+        "universe; random lists of 1-12 numbers (also random integers of up to 62 bits), literally and through variable chains; the same through the text parser "
         "(parse_term of `add(..)` / `a + b`, integer literals up to i64 extremes and beyond 2^53, then unified with a fresh "
         "variable); malformed argument lists. "
         "Results are compared by bit pattern. Non-trivial = the evaluation returns a number (no panic).")
